@@ -216,7 +216,7 @@ func runCrash(p *Plan, tape *simrt.Tape, opt RunOpt) *RunOut {
 		return out
 	}
 	d.fileProbes(fs)
-	out.addProbes(d.Probes)
+	out.addDriver(d)
 	out.Probes["crash-points"] += len(cands)
 
 	// choose which crash points (and torn variants) to boot
